@@ -356,8 +356,18 @@ func firstDiff(w, g reflect.Value, path string, outer map[string]bool) (reason, 
 				for k := range names {
 					shadow[k] = true
 				}
-				return firstDiff(wf, gf, p, shadow)
+				r, wh := firstDiff(wf, gf, p, shadow)
+				if f.PkgPath != "" && strings.HasPrefix(r, "unexported-field-dropped") && !strings.Contains(r, "behind-embedded") {
+					r += ":behind-embedded-unexported-type"
+				}
+				return r, wh
 			case f.PkgPath != "":
+				// the known shape is a struct that ALSO has exported fields
+				// (accepted on purpose); a struct with only unexported fields
+				// is the lossy shape the validator must reject
+				if len(names) == 0 {
+					return "unexported-field-dropped:in-unexported-only-struct", p
+				}
 				return "unexported-field-dropped", p
 			case names[n] > 1:
 				return "duplicate-json-name", p
